@@ -42,7 +42,7 @@ READY = True
 LEAN_TARGETS = ["NauyacaVerif.Props.C13"]
 THEOREMS = [f"NauyacaVerif.C13.{t}" for t in (
     "maxBody_tie", "maxHeader_tie", "client_resolves", "client_faithful", "client_faithful_stream", "client_seg_indep",
-    "client_seg_indep_stall", "client_cap", "client_header_bound", "client_result_final")]
+    "client_seg_indep_stall", "client_nonsuccess_at_header", "client_cap", "client_header_bound", "client_result_final")]
 LEAN_TARGETS = LEAN_TARGETS + ["NauyacaVerif.Props.Tr.ClientDataReceived"]
 TRANSLATED = ["clientDataReceived", "titanClientDataReceived"]
 THEOREMS = THEOREMS + ["NauyacaVerif.Translated.client_data_received_eq", "NauyacaVerif.Translated.titan_client_data_received_eq"]
@@ -575,10 +575,10 @@ def _dummy_ctx():
 
 
 # Switched OFF: "nothing can be learned from a connection the client has closed itself, so the call ends at that moment".  The property
-# promises promptness "once the peer has closed" and the cut-off at the timeout otherwise, and the unchanged client does not meet the
-# stronger reading: a non-2x response is only delivered by connection_lost, i.e. after the TLS shutdown that its own close() started, so
-# against a peer that has stopped reading `51 Not found CRLF` ends in TimeoutError at the timeout (confirmed over loopback TLS, see the
-# family `linger`).  The timeout bound itself (`no-timeout-cutoff`) does not depend on this switch.
+# promises promptness "once the peer has closed" and the cut-off at the timeout otherwise; this reading asks for more than that and is
+# kept only as a diagnostic.  (Before fix: 8049c3f the client did not meet it either: a non-2x response was only delivered by
+# connection_lost, after the TLS shutdown its own close() had started - what the property DOES forbid there is the dependence of the
+# result on the segmentation, rule `segmentation-dependent` below and in the family `live`.)
 KNOWN_OUTCOME_RULE = False
 
 
@@ -725,6 +725,19 @@ class Session(Family):
         v = self.cap_verdict(case, obs, data, what, peer)
         if v:
             return v
+        # "the result never depends on how the stream was segmented": a stream that starts with a well-formed non-2x header line and
+        # is then closed by the server has, delivered in ONE read, the outcome "that response" (nothing after the header belongs to
+        # it).  The same stream delivered in several reads must have the same outcome - provided its header line reached the client
+        # before the call's cut-off
+        if case["end"] == "close" and t_up < T - eps:
+            i = data.find(CRLF)
+            w = want_of(data, True)
+            line = data[:i] if i >= 0 else b""
+            if w is not None and not (20 <= w[0] <= 29) and line[2:3] == b" " and b"\r" not in line and b"\n" not in line:
+                t_h = next((t for t, n in reads if n >= i + 2), None)
+                if t_h is not None and t_h < limit - eps and res[:2] != ["resp", w[0]]:
+                    return ("segmentation-dependent", f"{what}: the stream {data[:60]!r}{'...' if len(data) > 60 else ''} (header line complete at t={t_h}, cuts at {case['cuts'][:6]}) "
+                                                      f"ended with {res[:2]}; delivered in one read the same stream is the response {w[0]} {w[1]!r}{peer}")
         if res[0] == "timeout":
             # a timeout is legitimate only if a phase really lasted T: connecting, or waiting while the peer neither closed nor reset
             waited_connect = case["connect_delay"] >= T
@@ -1093,7 +1106,7 @@ class Live(Family):
         self.w = T.world()
 
     def gen(self, rng: random.Random, n: int):
-        kinds = ["ok-close", "ok-notify", "non2x", "cut-header", "cut-body", "reset-body", "stall-header", "stall-body", "cap", "cap-close", "unknown-charset", "bad-status", "odd-codec"]
+        kinds = ["ok-close", "ok-notify", "non2x", "non2x-late", "non2x-once", "cut-header", "cut-body", "reset-body", "stall-header", "stall-body", "cap", "cap-close", "unknown-charset", "bad-status", "odd-codec"]
         for i in range(n):
             k = kinds[(i + rng.randrange(len(kinds))) % len(kinds)] if i < len(kinds) * 2 else rng.choice(kinds)
             yield {"kind": k, "op": rng.choice(["get", "get", "upload"]), "tofu": rng.random() < 0.5, "nchunks": rng.choice([1, 2, 5]),
@@ -1109,6 +1122,10 @@ class Live(Family):
             return b"20 text/plain; charset=us-ascii\r\n" + body, "close" if k == "ok-close" else "close_notify", "resp"
         if k == "non2x":
             return b"51 Not found\r\n", "wait", "resp"
+        if k in ("non2x-late", "non2x-once"):
+            # a non-2x header followed by bytes that are no part of the response, then the server's close: in ONE write (-once), or the
+            # header first and the rest a little later, in TLS records of their own (-late) - the same stream, segmented differently
+            return rnd.choice([b"51 Not found\r\n", b"30 gemini://example.org/next\r\n", b"44 5\r\n"]) + b"trailing bytes that follow the header", "close", "resp"
         if k == "cut-header":
             return b"20 text/pla", "close", "err"
         if k == "cut-body":
@@ -1151,6 +1168,10 @@ class Live(Family):
             steps.append(["send", data[a:a + step], "force"])
             if n > 1 and a + step < len(data) and len(data) < 100000:
                 steps.append(["sleep", 0.01])
+        if case["kind"] in ("non2x-late", "non2x-once"):
+            h = data.find(CRLF) + 2
+            steps = [["read_request", 2.0]] + ([["send", data, "force"]] if case["kind"] == "non2x-once" else
+                                               [["send", data[:h], "force"], ["sleep", 0.4], ["send", data[h:h + 9], "force"], ["sleep", 0.1], ["send", data[h + 9:], "force"]])
         steps += {"close": [["close"]], "close_notify": [["close_notify"]], "reset": [["reset"]], "wait": [["read_eof", 3.0], ["close"]],
                   "stall": [["sleep", T + self.STALL_HOLD], ["close"]]}[fin]
         peer.push("ec", steps)
@@ -1204,6 +1225,15 @@ class Live(Family):
             # the server sits on the connection (no read, no close) for T + STALL_HOLD: the cut-off is the timeout, not the end of the connection
             return ("no-timeout-cutoff", f"{case['kind']} ({case['op']} through GeminiClient over loopback TLS, timeout {T}s): the server sent {obs['sent']} bytes and then neither read nor "
                                          f"closed for {T + self.STALL_HOLD}s; the call ended with {res} only after {el}s, not at its timeout")
+        if case["kind"] in ("non2x-late", "non2x-once"):
+            # "the result never depends on how the stream was segmented": sent in one write this stream is the response its header line
+            # makes up; sent as header, pause, rest it is the same stream
+            data = self.plan(case)[0]
+            want_st = int(data[:2])
+            if res[:2] != ["resp", want_st]:
+                return ("segmentation-dependent", f"{case['op']} through GeminiClient over loopback TLS: the server sent {data!r} as "
+                                                  f"{'ONE write' if case['kind'] == 'non2x-once' else 'the header line, 0.4 s later the rest (TLS records of their own)'} and closed; "
+                                                  f"the call ended with {res} after {el}s instead of the response {want_st} (in one write the same stream gives that response)")
         if res[0] == "resp":
             if not (10 <= res[1] <= 69) or ((res[3] is not None) != (20 <= res[1] <= 29)):
                 return ("bad-response", f"{res}")
